@@ -1645,6 +1645,102 @@ def objc_closure(ir, nm, outputs, decls_by_key, alias_names=()):
     return out
 
 
+def objc_file_closure(outputs, decls_by_key, units=('h',)):
+    """Objective-C, per FILE: every generated class a file names is declared in that file (`@class`, `@interface`) or in
+    a generated header it imports (transitively). `objc_closure` above asks only whether a name is declared anywhere
+    in the output; a header that uses `DBXCursor *` in a method signature without `@class DBXCursor;` or an import of
+    its header passes there and does not compile. Judged: names of classes the output itself declares with
+    `@interface` (types and client output together: the client imports the headers of the types backend by base name,
+    as the SDK's include path resolves them); names of the SDK (`DBTasks.h`...) are not ours to find."""
+    out = []
+    classes = set()
+    here = {}                                                  # base name -> names declared by that file
+    for key, decls in decls_by_key.items():
+        for d in decls:
+            if d['kind'] == 'interface' and d['unit'] == 'h':
+                classes.add(d['name'])
+            if d['kind'] in ('interface', 'class_fwd'):
+                here.setdefault(os.path.basename(d['file']), set()).add(d['name'])
+    imports = {}
+    for key, tokens in outputs.items():
+        for rel, toks in tokens.items():
+            imp = imports.setdefault(os.path.basename(rel), set())
+            for i, t in enumerate(toks[:-1]):
+                if t.kind == 'pp' and t.text in ('#import', '#include') and toks[i + 1].kind == 'str':
+                    imp.add(os.path.basename(toks[i + 1].text.strip('@"<>')))
+
+    def visible(base, seen):
+        if base in seen:
+            return set()
+        seen.add(base)
+        names = set(here.get(base, ()))
+        for b in imports.get(base, ()):
+            if b in imports:
+                names |= visible(b, seen)
+        return names
+    for key, tokens in outputs.items():
+        for rel in sorted(tokens):
+            if rel[-1] not in units or not rel.endswith(('.h', '.m')):
+                continue
+            toks = tokens[rel]
+            used = collections.OrderedDict()
+            for i, t in enumerate(toks):
+                if t.kind == 'id' and t.text in classes:
+                    used.setdefault(t.text, []).append(i)
+            if not used:
+                continue
+            vis = visible(os.path.basename(rel), set())
+            by_cause = collections.OrderedDict()
+            for n in used:
+                if n not in vis:
+                    # the least exotic use decides: a bare `DBXItem *` needs the declaration whatever else there is
+                    ranks = [_FILE_CAUSES.index(_generic_context(toks, i)) for i in used[n]]
+                    by_cause.setdefault(_FILE_CAUSES[min(ranks)], []).append(n)
+            for cause, missing in by_cause.items():
+                t = toks[used[missing[0]][0]]
+                out.append(('used-not-declared-in-file',
+                            {'oracle': 'closure', 'lang': 'objc', 'backend': key, 'kind': 'class-not-declared-in-file',
+                             'unit': rel[-1], 'cause': cause},
+                            {'file': rel, 'names': sorted(missing)[:8], 'line': t.line, 'col': t.col,
+                             'why': 'the file names a generated class without @class / @interface for it and '
+                                    'without importing a generated header that declares it'}))
+    return out
+
+
+_FILE_CAUSES = ('direct', 'below-list', 'below-map')
+# Found on the unchanged /repo when this oracle was written (2026-09-24), reported to the coordinator, not yet decided
+# (fix or listed finding): the import collectors of obj_c.py do not look below a Map, nor below a nullable that is the
+# element of a List / value of a Map -- `NSDictionary<NSString *, DBXItem *>` / `NSArray<DBXItem *>` (for List(Item?))
+# are printed without `@class DBXItem;`. Until decided these three (backend, cause) pairs are COUNTED
+# (`not_judged.file_closure.*`), not judged; C17_FILE_CLOSURE_ALL=1 judges them too. Everything else -- every class named
+# directly, every class below a list in the routes headers -- is judged.
+FILE_CLOSURE_OPEN = {('obj_c_client', 'below-map'), ('obj_c_types', 'below-map'), ('obj_c_types', 'below-list')}
+
+
+def _generic_context(toks, i):
+    """how token i (a class name) stands in its type expression: `direct` (`DBXItem *`), `below-list` (inside
+    `NSArray<...>` only), `below-map` (inside an `NSDictionary<...>`)"""
+    depth, j, line, ctx = 0, i - 1, toks[i].line, 'direct'
+    while j >= 0 and toks[j].line == line:
+        t = toks[j]
+        if t.kind == 'punct' and t.text and set(t.text) == {'>'}:
+            depth += len(t.text)
+        elif t.kind == 'punct' and t.text and set(t.text) == {'<'}:
+            for _ in t.text:
+                if depth:
+                    depth -= 1
+                else:
+                    head = toks[j - 1].text if j else ''
+                    if head == 'NSDictionary':
+                        return 'below-map'
+                    if head == 'NSArray':
+                        ctx = 'below-list'
+        elif t.kind == 'punct' and t.text in ('(', ';', '{', '}') and depth == 0:
+            break
+        j -= 1
+    return ctx
+
+
 # ======================================================================================================
 # 8. compact declaration lists for the correspondence with the model
 # ======================================================================================================
@@ -2133,6 +2229,19 @@ def grid_block(i, ty, flags, k):
     return '\n'.join(L) + '\n'
 
 
+def grid_far(members, k):
+    """a namespace of its own whose routes take children of g.Req<i> / g.Kid<i>: the shape reaches the client of `far`
+    ONLY as an inherited field of a route argument (no own field, result or error of `far` mentions it), one and two
+    levels up, across namespaces -- what a routes file of `far` names it has to declare or import by itself"""
+    L = ['namespace far\n    "Route arguments that inherit their fields from g."\n\nimport g\n']
+    for i, _ty, _flags in members:
+        L.append('struct Far%d extends g.Req%d\n    far Int32 = 1\n' % (i, i))
+        L.append('struct Farther%d extends g.Kid%d\n    "Two levels below g.Req%d."\n    farther String?\n' % (i, i, i))
+        L.append('route go_far%d(Far%d, Void, Void)\n%s' % (i, i, _grid_attrs(i + 4, k)))
+        L.append('route go_farther%d(Farther%d, Void, Void)\n%s' % (i, i, _grid_attrs(i + 6, k)))
+    return '\n'.join(L) + '\n'
+
+
 def grid_exotic(which, members, k):
     """routes that take (`arg`) / return (`res`) / fail with (`err`) the shapes directly"""
     L = []
@@ -2162,15 +2271,16 @@ def grid_cases(per_spec=6, exotic=True):
         groups.append(cur)
     out = []
 
-    def case(name, text, k):
+    def case(name, text, k, far=None):
         opts, _auths, excluded = GRID_OPTS[k % len(GRID_OPTS)]
         skipped = 'route skipped(Item, Choice, Void)\n    attrs\n        auth = "%s"\n\n' % excluded
         out.append({'suite': 'decl.swift.spec', 'origin': 'grid:%s' % name,
-                    'specs': [['g.stone', GRID_HELPERS + skipped + text], ['other.stone', GRID_OTHER],
-                              ['stone_cfg.stone', STONE_CFG]],
+                    'specs': [['g.stone', GRID_HELPERS + skipped + text], ['other.stone', GRID_OTHER]] +
+                             ([['far.stone', far]] if far else []) + [['stone_cfg.stone', STONE_CFG]],
                     'opts': dict(opts)})
     for k, grp in enumerate(groups):
-        case('types:%s' % ','.join(str(s[0]) for s in grp), ''.join(grid_block(*(s + (k,))) for s in grp), k)
+        case('types:%s' % ','.join(str(s[0]) for s in grp), ''.join(grid_block(*(s + (k,))) for s in grp), k,
+             far=grid_far(grp, k))
     if exotic:
         for n, which in enumerate(('res', 'arg', 'err')):
             for j, lo in enumerate(range(0, len(shapes), 2 * per_spec)):
@@ -2277,6 +2387,15 @@ def eval_case(case, keep_files=False):
                 probs = fn(ir, nm, {k: per[k][2] for k in keys}, {k: per[k][1] for k in keys}, alias_names)
                 res['problems'].extend(probs)
                 res['stats']['closure.' + lang] += 1
+                if lang == 'objc':
+                    strict = os.environ.get('C17_FILE_CLOSURE_ALL') == '1'
+                    for what, sig, detail in objc_file_closure({k: per[k][2] for k in keys}, {k: per[k][1] for k in keys},
+                                                               units=tuple(os.environ.get('C17_FILE_UNITS', 'h'))):
+                        if (sig['backend'], sig['cause']) in FILE_CLOSURE_OPEN and not strict:
+                            res['stats']['not_judged.file_closure.%s.%s' % (sig['backend'], sig['cause'])] += 1
+                        else:
+                            res['problems'].append((what, sig, detail))
+                    res['stats']['closure.objc_files'] += sum(1 for k in keys for r in per[k][2] if r.endswith('.h'))
             else:
                 res['stats']['closure_skipped.' + lang] += 1
     finally:
